@@ -11,7 +11,7 @@ import (
 	"strings"
 )
 
-func report(eng *Engine, prop, tier string, seed int, verif string, cfg *PropConfig, obls, covers []*Obligation,
+func report(eng *Engine, prop, tier string, seed int, verif, outDir string, cfg *PropConfig, obls, covers []*Obligation,
 	funcs []string, abstracted map[string][]string, calleeContracts map[string]bool, encErrors, undecidedClauses, notes []string,
 	loadSecs, encSecs, solveWall, wall float64, verbose bool) int {
 
@@ -41,7 +41,7 @@ func report(eng *Engine, prop, tier string, seed int, verif string, cfg *PropCon
 		return 2
 	}
 
-	replayDir := filepath.Join(verif, "replays", prop)
+	replayDir := filepath.Join(outDir, "replays", prop)
 	os.RemoveAll(replayDir)
 	os.MkdirAll(replayDir, 0o755)
 
@@ -176,9 +176,9 @@ func report(eng *Engine, prop, tier string, seed int, verif string, cfg *PropCon
 		"wall_s":      round2(wall),
 		"violations":  len(violations),
 	}
-	os.MkdirAll(filepath.Join(verif, "evidence"), 0o755)
+	os.MkdirAll(filepath.Join(outDir, "evidence"), 0o755)
 	b, _ := json.MarshalIndent(ev, "", " ")
-	if err := os.WriteFile(filepath.Join(verif, "evidence", prop+".json"), append(b, '\n'), 0o644); err != nil {
+	if err := os.WriteFile(filepath.Join(outDir, "evidence", prop+".json"), append(b, '\n'), 0o644); err != nil {
 		fmt.Fprintln(os.Stderr, "govc: cannot write evidence:", err)
 		return 2
 	}
